@@ -256,3 +256,37 @@ def cut_overshoot_predicate(line, run_impl):
         return False
     got = math.hypot(q[0] - a[0], q[1] - a[1])
     return abs(got - placed) <= 1e-4 * (1 + abs(placed)) + 1e-5 * max(1.0, max(abs(c) for p in nat[0] for c in p))
+
+
+def segments_of(pt_tokens):
+    """[(kind letter, [(x, y)])] as calculate_path splits the control points"""
+    pts = [(from_bits32(t.split(":")[0]), from_bits32(t.split(":")[1]), t.split(":")[2]) for t in pt_tokens]
+    segs, start = [], 0
+    for i, p in enumerate(pts):
+        if p[2] == "-" and i < len(pts) - 1:
+            continue
+        if i > start:
+            kind = pts[start][2]
+            segs.append(("L" if kind == "-" else kind[0], [(q[0], q[1]) for q in pts[start:i + 1]]))
+        start = i
+    return segs
+
+
+def ill_conditioned_arc_predicate(line, threshold=0.5):
+    """F13: some three-point perfect-curve segment whose circumcircle is ill-conditioned in f32:
+    2^-23 * scale^2 * extent / |cross| > threshold (scale = largest |coordinate|, extent = longest side from the first point,
+    cross = (b-a) x (c-a) evaluated in f64 on the f32 coordinates; exactly collinear points count as infinitely ill-conditioned
+    when the code's own f32 collinearity test does not reject them)."""
+    import math
+    _, _, _, pts, _ = request_parts(line)
+    for kind, vs in segments_of(pts):
+        if kind != "P" or len(vs) != 3:
+            continue
+        a, b, c = vs
+        cr = abs((b[0] - a[0]) * (c[1] - a[1]) - (b[1] - a[1]) * (c[0] - a[0]))
+        scale = max(1.0, max(abs(v) for p in vs for v in p))
+        ext = max(math.hypot(b[0] - a[0], b[1] - a[1]), math.hypot(c[0] - a[0], c[1] - a[1]))
+        cond = float("inf") if cr == 0 else 2.0 ** -23 * scale * scale * ext / cr
+        if cond > threshold:
+            return True
+    return False
